@@ -190,6 +190,13 @@ func (client *OpenIDConnectClientConfig) CanRedirectToURL(redirectUrl string) (b
 	matchedDomain := false
 	for _, domain := range client.AllowedRedirectDomains {
 		matched := strings.HasSuffix(parsedURL.Hostname(), domain)
+		// The suffix must start at a label boundary: "evilexample.com" is
+		// not inside "example.com".
+		if matched && !strings.HasPrefix(domain, ".") &&
+			len(parsedURL.Hostname()) > len(domain) &&
+			!strings.HasSuffix(parsedURL.Hostname(), "."+domain) {
+			matched = false
+		}
 		if matched {
 			matchedDomain = true
 			break
